@@ -51,6 +51,9 @@ pub fn run(ctx: &Ctx) -> Outcome {
     {
         use super::solo_drivers::*;
         run_and_report(ctx, &rtx(ctx.tier, 5, true, ctx.tier.pick(6, 8)), &mut out);
+        // acknowledgements riding on the peer's data and FIN packets (ahead of a gap too), with the local
+        // transport refusing a datagram now and then
+        run_and_report(ctx, &rtx_piggyback(ctx.tier, ctx.tier.pick(6, 8)), &mut out);
         run_and_report(ctx, &mtu(ctx.tier, 700, Some(600), None, 1, ctx.tier.pick(6, 8)), &mut out);
         run_and_report(ctx, &mtu(ctx.tier, 700, None, Some(620), 1, ctx.tier.pick(6, 8)), &mut out);
         run_and_report(ctx, &rx(ctx.tier, 4, vec![MSS, 1], ctx.tier.pick(6, 8)), &mut out);
@@ -116,6 +119,7 @@ pub fn mtu_family(ctx: &Ctx) -> Outcome {
             (9000, Some(5000), None, true),
             // beyond 16 KiB: datagrams larger than a conservative receive buffer
             (20_000, None, None, false),
+            (40_000, Some(30_000), None, false),
         ],
         Tier::Thorough => {
             let mut g = vec![];
